@@ -153,8 +153,7 @@ def main():
         c = json.loads(line)
         try:
             r = {'out': 'ok', 'res': J(do(c))}
-        except (AssertionError, NotImplementedError, KeyError, IndexError, TypeError, ValueError, AttributeError,
-                RecursionError, StopIteration) as e:
+        except Exception as e:       # whatever the toolkit raises is an outcome to be judged, never a crash of the harness
             r = {'out': 'raise:' + type(e).__name__, 'res': None}
         out.write(json.dumps(r, separators=(',', ':')) + '\n')
     out.flush()
